@@ -1,0 +1,31 @@
+// Package fsutil holds small file-system helpers.
+package fsutil
+
+import (
+	"fmt"
+	"os"
+)
+
+// WriteFileAtomic replaces the file at path with data in one step: the data is written to tmpPath
+// first and then renamed over path, so that a crash or a failed write never leaves path truncated
+// or half written. tmpPath must be on the same file system as path.
+func WriteFileAtomic(path, tmpPath string, data []byte) error {
+	f, err := os.Create(tmpPath)
+	if err != nil {
+		return fmt.Errorf("fail to create %s: %w", tmpPath, err)
+	}
+	if _, err := f.Write(data); err != nil {
+		f.Close()
+		os.Remove(tmpPath)
+		return fmt.Errorf("fail to write %s: %w", tmpPath, err)
+	}
+	if err := f.Close(); err != nil {
+		os.Remove(tmpPath)
+		return fmt.Errorf("fail to close %s: %w", tmpPath, err)
+	}
+	if err := os.Rename(tmpPath, path); err != nil {
+		os.Remove(tmpPath)
+		return fmt.Errorf("fail to replace %s: %w", path, err)
+	}
+	return nil
+}
